@@ -108,11 +108,15 @@ def _execute(lr, view, cfg, ctx, sched):
     v0 = sum(p * Vs[s] for s, p in view.init.items())
     nonabs = [s for s in range(view.N) if s not in view.absorbing]
     trial_bound = view.N + sum(max(0.0, htab[s] - Vs[s]) for s in nonabs) / eps + 1
+    vscale = max([abs(float(v)) for v in Vs] + [abs(float(r)) for r in view.R.values()] + [0.0]) / (1 - g if g < 1 else 1.0)
+
     def one_run(the_sched, iterations_cap, tag, allow_reuse):
         st = dict(prevV={}, solved_val={}, trials=0, productive=0, t=0, entered_abs=set(), main=True)
 
         def tolv(x):
-            return 1e-9 * (1 + abs(x))
+            # relative to the value in question and to the scale of the problem's values: the reference solver's own rounding
+            # error at a state worth 0 is ~1e-16 times the largest value it solves for (1e-7 when rewards are of the order 1e9)
+            return 1e-9 * (1 + abs(x)) + 1e-15 * vscale
 
         def stored(V):
             out = {}
